@@ -255,6 +255,13 @@ class Module(object):
         for lhs, _ in self.assigns:
             if lhs in regnames or lhs in dict(self.inputs):
                 raise ReaderError('continuous assignment to reg/input %s' % lhs)
+        # every wire and output needs exactly one driver (an undriven net is z, two drivers fight)
+        drivers = [lhs for lhs, _ in self.assigns] + [lhs for lhs, _, _ in self.memrds]
+        for n, _ in self.wires + self.outputs:
+            if drivers.count(n) == 0:
+                raise ReaderError('wire or output without a driver: %s' % n)
+            if drivers.count(n) > 1:
+                raise ReaderError('wire or output with several drivers: %s' % n)
 
     # ---- Coq term
     def coq(self, idmap):
